@@ -41,6 +41,29 @@ type caseScript struct {
 	responses map[int]*PluginRsp // by plugin instance
 	views     []interface{}
 	order     []string
+	built     map[int]*JBuilt // builder stream: what the plugin's programs built
+	progErr   error           // a malformed program (harness input error, not an observation)
+}
+
+// answer is what plugin p returns: the generated response, or — builder stream — whatever its
+// programs build with the real helpers of pkg/api.
+func (p *scripted) answer(s *caseScript, r *PluginRsp, create bool) (*api.ContainerAdjustment, []*api.ContainerUpdate) {
+	if r.Progs == nil {
+		if create {
+			return ToAdjust(r.Adjust), ToUpdates(r.Updates)
+		}
+		return nil, ToUpdates(r.Updates)
+	}
+	b, adj, upds, err := RunProgs(r.Progs, create)
+	if err != nil && s.progErr == nil {
+		s.progErr = err
+	}
+	b.Name, b.Inst = r.Name, r.Inst
+	if s.built == nil {
+		s.built = map[int]*JBuilt{}
+	}
+	s.built[p.inst] = b
+	return adj, upds
 }
 
 type scripted struct {
@@ -67,7 +90,8 @@ func (p *scripted) CreateContainer(_ context.Context, _ *api.PodSandbox, c *api.
 	if r == nil {
 		return nil, nil, nil
 	}
-	return ToAdjust(r.Adjust), ToUpdates(r.Updates), nil
+	adj, upds := p.answer(s, r, true)
+	return adj, upds, nil
 }
 
 func (p *scripted) UpdateContainer(_ context.Context, _ *api.PodSandbox, _ *api.Container, res *api.LinuxResources) ([]*api.ContainerUpdate, error) {
@@ -78,7 +102,8 @@ func (p *scripted) UpdateContainer(_ context.Context, _ *api.PodSandbox, _ *api.
 	if r == nil {
 		return nil, nil
 	}
-	return ToUpdates(r.Updates), nil
+	_, upds := p.answer(s, r, false)
+	return upds, nil
 }
 
 func (p *scripted) StopContainer(_ context.Context, _ *api.PodSandbox, c *api.Container) ([]*api.ContainerUpdate, error) {
@@ -89,7 +114,8 @@ func (p *scripted) StopContainer(_ context.Context, _ *api.PodSandbox, c *api.Co
 	if r == nil {
 		return nil, nil
 	}
-	return ToUpdates(r.Updates), nil
+	_, upds := p.answer(s, r, false)
+	return upds, nil
 }
 
 // TwinNames is the plugin set of the "twins" rig: two plugin instances registered under the
@@ -186,6 +212,8 @@ type PluginRsp struct {
 	Inst    int       `json:"inst"` // position in the rig's plugin list (names may repeat)
 	Adjust  *JAdjust  `json:"adjust"`
 	Updates []JUpdate `json:"updates"`
+	// builder stream: the handler runs these programs of helper calls instead (builder.go)
+	Progs *JProgs `json:"progs,omitempty"`
 }
 
 type CaseIn struct {
@@ -195,6 +223,7 @@ type CaseIn struct {
 	Sparse    bool        `json:"sparse"`    // runtime leaves empty sections nil
 	Plugins   []PluginRsp `json:"plugins"`   // in index order; absent plugin = empty response
 	Stream    string      `json:"stream"`
+	Shape     string      `json:"shape,omitempty"`
 }
 
 type JErr struct {
@@ -220,6 +249,8 @@ type CaseObs struct {
 	Comb   *SpecFamilies `json:"comb"`
 	Seq    *SpecFamilies `json:"seq"`
 	GenErr string        `json:"genErr"`
+	// builder stream: per plugin that was given programs, what they built (in plugin order)
+	Built []*JBuilt `json:"built,omitempty"`
 }
 
 var (
@@ -327,5 +358,18 @@ func (g *Rig) RunCase(in *CaseIn) (*CaseObs, error) {
 	}
 	obs.Invoked = append([]string{}, s.order...)
 	obs.Views = append([]interface{}{}, s.views...)
+	if s.progErr != nil {
+		return nil, s.progErr
+	}
+	for i := range in.Plugins {
+		if in.Plugins[i].Progs == nil {
+			continue
+		}
+		b := s.built[in.Plugins[i].Inst]
+		if b == nil { // the request failed before this plugin was asked
+			b = &JBuilt{Name: in.Plugins[i].Name, Inst: in.Plugins[i].Inst, Updates: []*JUpdate{}}
+		}
+		obs.Built = append(obs.Built, b)
+	}
 	return obs, nil
 }
